@@ -202,7 +202,7 @@ func (in *Interp) Run(ftype *ast.FuncType, recv *ast.FieldList, body *ast.BlockS
 			for _, n := range f.Names {
 				if o := in.Info.Defs[n]; o != nil {
 					params[n.Name] = o
-					st.env[o] = Sym{n.Name}
+					st.env[o] = Sym{Name: n.Name}
 				}
 			}
 		}
@@ -293,7 +293,7 @@ func (in *Interp) zero(st *State, t types.Type) Val {
 		}
 		return st.NewObj(typeName(t), f)
 	}
-	return Sym{"zero:" + t.String()}
+	return Sym{Name: "zero:" + t.String()}
 }
 
 func typeName(t types.Type) string {
@@ -638,14 +638,21 @@ func (in *Interp) execLoop(loop ast.Stmt, st *State, label string) []result {
 	}
 	seen := map[string]bool{}
 	work := starts
-	exit := func(s *State) { out = append(out, result{st: s, c: cNext}) }
+	// leaving the loop normally is visible in the reference state ("exit:<ref>"), so
+	// that a rule can tell a return inside an iteration from one after the loop
+	exit := func(s *State) {
+		if spec != nil && len(spec.Cases) > 0 {
+			s.Ref = "exit:" + s.Ref
+		}
+		out = append(out, result{st: s, c: cNext})
+	}
 	for len(work) > 0 {
 		s := work[0]
 		work = work[1:]
 		// loop head: forget iteration-local knowledge
 		s.IterNow = ""
 		for _, o := range havoc {
-			s.env[o] = Sym{o.Name() + tag}
+			s.env[o] = Sym{Name: o.Name() + tag}
 		}
 		for k := range s.Assumed {
 			if strings.Contains(k, tag) {
@@ -697,15 +704,15 @@ func (in *Interp) execLoop(loop ast.Stmt, st *State, label string) []result {
 					if id, ok := rs.Key.(*ast.Ident); ok && id.Name != "_" {
 						kname = id.Name + tag
 						if o := in.info().Defs[id]; o != nil {
-							e.env[o] = Sym{kname}
+							e.env[o] = Sym{Name: kname}
 						} else if o := in.info().Uses[id]; o != nil {
-							e.env[o] = Sym{kname}
+							e.env[o] = Sym{Name: kname}
 						}
 					}
 					if id, ok := rs.Value.(*ast.Ident); ok && id.Name != "_" {
-						var ev Val = Sym{rangeX.Canon() + "[" + kname + "]"}
+						var ev Val = Sym{Name: rangeX.Canon() + "[" + kname + "]"}
 						if in.Hooks.Index != nil {
-							if v, ok := in.Hooks.Index(e, rangeX, Sym{kname}); ok {
+							if v, ok := in.Hooks.Index(e, rangeX, Sym{Name: kname}); ok {
 								ev = v
 							}
 						}
@@ -780,4 +787,36 @@ func (in *Interp) rangeConcrete(rs *ast.RangeStmt, l List, starts []*State, labe
 		out = append(out, result{st: s, c: cNext})
 	}
 	return out
+}
+
+// CondResult is one way a condition can evaluate.
+type CondResult struct {
+	Value   bool
+	Assumed map[string]bool
+	Events  []Event
+}
+
+// RunCond evaluates a single boolean expression in an empty environment (free
+// identifiers become opaque terms named after themselves).
+func (in *Interp) RunCond(e ast.Expr) (res []CondResult, err error) {
+	defer func() {
+		if r := recover(); r != nil {
+			if u, ok := r.(Undecided); ok {
+				err = fmt.Errorf("%s: %s", in.Prog.Pos(u.Pos), u.What)
+				return
+			}
+			panic(r)
+		}
+	}()
+	if in.MaxPaths == 0 {
+		in.MaxPaths = 4096
+	}
+	in.paths = 0
+	in.loopIDs = map[ast.Stmt]int{}
+	id := 0
+	st := &State{env: map[types.Object]Val{}, heap: map[int]*Obj{}, nextID: &id, Assumed: map[string]bool{}, Iter: map[ast.Stmt]string{}}
+	for _, cb := range in.cond(e, st) {
+		res = append(res, CondResult{Value: cb.b, Assumed: cb.st.Assumed, Events: cb.st.Events})
+	}
+	return res, nil
 }
